@@ -153,29 +153,10 @@ Definition npos_index (l : forest) (nm : nat) (pos : Z) : nat :=
 Definition pos_index (byname : bool) (l : forest) (x : tree) (pos : Z) : nat :=
   if byname then npos_index l (tname x) pos else gpos_index (length l) pos.
 
-(* ---- clone: same shape, names, values; fresh ids in allocation (pre-) order ---- *)
-Fixpoint renum_t (t : tree) (c : nat) : tree * nat :=
-  match t with
-  | T _ n v k =>
-    let '(k', c') :=
-      (fix rl (l : forest) (c : nat) {struct l} : forest * nat :=
-         match l with
-         | [] => ([], c)
-         | t' :: r => let '(t'', c1) := renum_t t' c in
-                      let '(r', c2) := rl r c1 in (t'' :: r', c2)
-         end) k (S c) in
-    (T c n v k', c')
-  end.
-Fixpoint renum_l (l : forest) (c : nat) : forest * nat :=
-  match l with
-  | [] => ([], c)
-  | t :: r => let '(t', c1) := renum_t t c in
-              let '(r', c2) := renum_l r c1 in (t' :: r', c2)
-  end.
-
-(* ---- clone that may fail.  The copy is built in pre-order; a node whose value cannot be
-   cloned, or the [k]-th allocation of the call, ends it: no copy, and the ids consumed
-   so far have been given back.  Result: the copy (if any), the next id, the oracle. ---- *)
+(* ---- clone: same shape, names, values; fresh ids in allocation (pre-) order.  It may fail:
+   a node whose value cannot be cloned, or the [k]-th allocation of the call (0: none),
+   ends it: no copy, and the ids consumed so far have been given back.
+   Result: the copy (if any), the next id, the oracle. ---- *)
 Fixpoint sclone_t (t : tree) (c k : nat) : option tree * nat * nat :=
   match t with
   | T _ n v kids =>
